@@ -15,9 +15,10 @@ Parts     tag_strings   every string of <= L tokens over the 19-token syntax alp
                         a generated family of documented-syntax tags, through P and 2 H seams;
           roundtrip     for every generated tag: parse_tag(serialize(parse_tag(t))) == parse_tag(t)
                         modulo start_index, serialize is a fixpoint, resolved values are equal;
-          complexity    pumping families pre . unit^k . post (+ nesting families) for
-                        k = 16,32,64,128 (thorough: 32..256), unit over all strings of <= 2 tokens: executed *lines*
-                        of django_components/** and django/template/base.py counted with
+          complexity    pumping families pre . unit^k . post and nesting families open^k . a . close^k
+                        for k = 16,32,64,128 (thorough 32,64,128,256), unit over all strings of <= 2
+                        tokens of either alphabet plus hand-picked longer units: executed *lines* of
+                        django_components/** and django/template/base.py counted with
                         sys.settrace (deterministic, no clock); steps(2k) <= 4.5 * steps(k) on the
                         last two doublings (a polynomial with non-negative coefficients of degree
                         <= 2 never exceeds 4; degree 3 tends to 8); output size linear.
@@ -27,6 +28,8 @@ Oracle    outcome in {returns, TemplateSyntaxError}; any other exception class i
           len(text) and the number of AST nodes <= len(text) + 1 (memory clause).
 
 Agnostic / excluded corners
+* whether a tag nested hundreds of levels deep is accepted or refused is open; it must be
+  refused with TemplateSyntaxError, not RecursionError (identity crash:RecursionError@<file>).
 * an exception that is raised without any django_components frame on the stack *and* that
   stock Django (Parser over DebugLexer tokens) raises identically is attributed to Django.
 * the "randomly beyond" part of the quantifier is not used (no sampling decides anything).
